@@ -8,6 +8,8 @@ import loader
 PARSER_BOUNDS = {"quick": [1, 2, 3], "thorough": [1, 2, 3, 4]}
 # quick also explores 4 tokens over a reduced vocabulary (one representative per kind of primary)
 SMALL_VOCAB = ["-true", "-print", "-quit", "-empty", "!", "-a", "-o", ",", "(", ")"]
+TINY_VOCAB = ["-true", "-print", "!", "-a", ","]
+MID_VOCAB = ["-true", "-print", "!", "-a", "-o", ",", "(", ")"]
 PRIMS = {"-true", "-false", "-print", "-print0", "-prune", "-quit", "-empty", "-readable"}
 BATCH_BOUNDS = {"quick": [0, 1, 2, 3], "thorough": [0, 1, 2, 3, 4]}
 
@@ -19,6 +21,7 @@ def run_parser(tier, funcs, index, enums, res):
     plans = [(n, c01_parser.VOCAB) for n in PARSER_BOUNDS[tier]]
     if tier == "quick":
         plans.append((4, SMALL_VOCAB))
+    plans.append((5, TINY_VOCAB if tier == "quick" else MID_VOCAB))
     for n, vocab in plans:
         r = c01_parser.explore(n, funcs, index, enums, vocab=vocab)
         res["functions_executed"].update(r.pop("functions_executed"))
@@ -32,7 +35,7 @@ def run_parser(tier, funcs, index, enums, res):
         r["inputs_covered"] = r.pop("sentences_checked")
         res["runs"].append(r)
     res["bounds"] = "every token sequence of length %s over the %d-word vocabulary %s%s; two symbolic leaf tests; one abstract file (a directory)" % (
-        PARSER_BOUNDS[tier], len(c01_parser.VOCAB), c01_parser.VOCAB, " and of length 4 over %s" % SMALL_VOCAB if tier == "quick" else "")
+        PARSER_BOUNDS[tier], len(c01_parser.VOCAB), c01_parser.VOCAB, (" and of length 4 over %s" % SMALL_VOCAB if tier == "quick" else "") + " and of length 5 over %s" % (TINY_VOCAB if tier == "quick" else MID_VOCAB))
 
 
 def run_batching(tier, funcs, index, enums, res):
@@ -189,6 +192,33 @@ def run_print0(tier, funcs, index, enums, res):
                          c7.STARTS, {k: c7.SHAPES_ALL[k] for k in shapes}))
 
 
+def run_printf(tier, funcs, index, enums, res):
+    import c16_printf as c16
+    res["target"] = ("FormatString::parse (parse_format_specifier, parse_format_width, parse_escape_sequence, advance_*/peek) on format strings assembled from a vocabulary of items, "
+                     "then Printf::{matches,print} + format_directive + get_starting_point on entries (built by WalkEntry::from_walkdir) of a tree with symbolic names")
+    full = c16.items_vocab(tier)
+    small = [it for it in full if it[0] in ("x", "é", "\\n", "\\101", "\\\\", "%%", "%p", "%f", "%h", "%H", "%P", "%d", "%5f", "%-5f", "%-12P", "%12h")]
+    plans = [(1, "nested", full), (1, "flat2", full), (2, "nested", small)]
+    if tier == "thorough":
+        plans += [(1, "three", full), (1, "nested21", full), (2, "nested", full), (3, "nested", [it for it in small if it[0] in ("x", "\\n", "%%", "%p", "%f", "%h", "%P", "%-5f", "%12h")])]
+    for n, shape, vocab in plans:
+        r = c16.explore(n, shape, funcs, index, enums, tier, vocab=vocab)
+        res["functions_executed"].update(r.pop("functions_executed"))
+        for v in r.pop("violations"):
+            key = v["class"] if v.get("class", "other") != "other" else "printf | %s | start %r" % (v.get("format"), v.get("start"))
+            res["violations"].append({"key": key, "summary": v["what"], "replayer": "printf_paths", "format": v.get("format"), "start": v.get("start"), "what": v["what"], "class": v.get("class")})
+        for k, c in r.pop("unsupported").items():
+            res["unsupported"][k] = res["unsupported"].get(k, 0) + c
+        r["bound"] = "%d format items over %d, tree %s" % (n, len(vocab), shape)
+        r["inputs_covered"] = r.pop("checks")
+        res["runs"].append(r)
+    res["bounds"] = ("format strings of 1 item over %d items (literals incl. multi-byte, escapes \\a..\\\\ \\0 \\NNN, %%%%, directives %%p %%f %%h %%H %%P %%d each with widths %s) and of 2 items over %d%s; "
+                     "starting points %r; tree shapes %s; name bytes symbolic over ASCII 1..127 without '/'; per entry the written bytes are compared with the reference rendering "
+                     "(padding to the minimum width on the left, on the right with '-', never truncated)" % (
+                         len(full), c16.WIDTHS if tier != "quick" else c16.WIDTHS[:6], len(small) if tier == "quick" else len(full), " and of 3 items over 9" if tier == "thorough" else "",
+                         __import__("c07_print0").STARTS, sorted({p[1] for p in plans})))
+
+
 def main():
     prop, tier, out = sys.argv[1], sys.argv[2], sys.argv[3]
     t0 = time.time()
@@ -207,6 +237,8 @@ def main():
         run_readers(tier, funcs, index, enums, res)
     elif prop == "C12":
         run_glob(tier, funcs, index, enums, res)
+    elif prop == "C16":
+        run_printf(tier, funcs, index, enums, res)
     elif prop == "C07":
         run_print0(tier, funcs, index, enums, res)
     elif prop == "C20":
